@@ -158,6 +158,25 @@ def tree_db(path, page_size, rnd, n=200, longkeys=False, pad=180, auto_vacuum=No
         con.execute("CREATE TABLE deep(id INTEGER PRIMARY KEY, t)")
         for i in range(deep_rows):
             con.execute("INSERT INTO deep VALUES(?, ?)", (2 ** 62 + i * 3, ("d%04d" % i) * 22))
+    if page_size <= 8192:
+        # overflow neighbours: a row that just spills (local part M, a tail of X-M+1.. bytes on ONE overflow page) next to a
+        # row with a large local part on the same leaf, in both insertion orders: the spilled row's local bytes sit at a
+        # LOWER address than the neighbour's cell, so a reader that extends the local slice in place overwrites the neighbour
+        U = page_size
+        X = U - 35
+        con.execute("CREATE TABLE ovn(id INTEGER PRIMARY KEY, t TEXT)")
+        con.execute("CREATE TABLE ovw(k TEXT PRIMARY KEY, v) WITHOUT ROWID")
+        for j, extra in enumerate((1, 2, 5, 20, 64)):
+            big = "A%d" % j + "a" * (int(U * 0.72) - 2)
+            spill = "B%d" % j + "b" * (X + extra - 4 - 2)
+            con.execute("INSERT INTO ovn VALUES(?,?)", (20 * j + 2, big))          # the neighbour first, higher rowid
+            con.execute("INSERT INTO ovn VALUES(?,?)", (20 * j + 1, spill))        # then the spilled row, scanned first
+            con.execute("INSERT INTO ovn VALUES(?,?)", (20 * j + 11, "C%d" % j + "c" * (int(U * 0.72) - 2)))
+            con.execute("INSERT INTO ovn VALUES(?,?)", (20 * j + 12, "D%d" % j + "d" * (X + extra - 4 - 2)))   # scanned after its neighbour
+        XI = ((U - 12) * 64 // 255) - 23
+        for j, extra in enumerate((1, 3, 17)):
+            for q in range(4):
+                con.execute("INSERT INTO ovw VALUES(?,?)", ("%d%d" % (9 - q, j) + "w" * (XI + extra - 6), q))
     for i in range(12):
         con.execute("INSERT INTO alt VALUES(?,?)", (i * 3 + 1, "q%d" % i))
         con.execute("INSERT INTO rowidcol VALUES(?,?,?)", ("text%d" % i, i * 1.5, i))
